@@ -1,8 +1,58 @@
-"""C16 placeholder for the documented-delta table (filled in below)."""
+"""C16 - hardening codemods make only their documented edit.
+
+The documented edit of a codemod on a seed is the one the repository's own test expects (vendored corpus): the token
+multisets deleted and inserted between the seed's input and expected output.  For every hardening codemod, every seed
+is varied along the Variants.tla feature vectors (nesting, layout, line endings; multiplicity 1) - variations add the
+same tokens before and after - and run through the real CLI; the delta of each rewritten file (identifiers, attribute
+names, keywords, constants, star markers; in source order) must equal the documented delta of its seed: nothing else
+deleted, inserted or re-ordered.  The observation enters FileEnd events as `bagOk` and is monitored by Trace_Run.
+"""
 from __future__ import annotations
 
+import json
+
+from .. import deltas, progspace
+from ..common import Check
+from . import c01
+
 LEVEL = "exploration"
+CLAUSE = "FileEnd:rewrite-changed-more-than-the-documented-edit"
+
+HARDENING = [
+    "pixee:python/requests-verify", "pixee:python/add-requests-timeouts", "pixee:python/harden-pyyaml", "pixee:python/harden-ruamel",
+    "pixee:python/jwt-decode-verify", "pixee:python/enable-jinja2-autoescape", "pixee:python/safe-lxml-parser-defaults", "pixee:python/safe-lxml-parsing",
+    "pixee:python/secure-random", "pixee:python/secure-flask-cookie", "pixee:python/subprocess-shell-false", "pixee:python/sandbox-process-creation",
+    "pixee:python/url-sandbox", "pixee:python/use-defusedxml", "pixee:python/harden-pickle-load", "pixee:python/https-connection",
+    "pixee:python/upgrade-sslcontext-tls", "pixee:python/upgrade-sslcontext-minimum-version", "pixee:python/limit-readline",
+    "pixee:python/timezone-aware-datetime", "pixee:python/django-json-response-type", "pixee:python/fix-math-isclose",
+]
 
 
-def checker(codemod: str):
-    return None
+def run(chk: Check) -> None:
+    from .. import seeds
+
+    vectors = [v for v in progspace.enumerate_vectors(chk) if v["mult"] == 1 and v["imp"] == "asis"]
+    scenarios = progspace.build_batches(chk, codemods=set(HARDENING), vectors=vectors, seeds_per_codemod=chk.pick(4, 14), vectors_per_seed=chk.pick(5, 30))
+    by_key = {s.key: s for s in seeds.load()}
+    for scn in scenarios:
+        expect = {}
+        for rel, meta in scn["_metas"].items():
+            s = by_key[meta["seed"]]
+            d = deltas.delta(s.input, s.expected)
+            if d is None:
+                continue
+            expect[rel] = {"minus": dict(d[0]), "plus": dict(d[1])}
+        scn["steps"][0]["bag_expect"] = expect
+    results, verdicts = progspace.run_batches(chk, scenarios)
+    c01.judge(chk, scenarios, results, verdicts, CLAUSE, "C16", "the rewrite deletes / inserts / re-orders tokens beyond the documented edit of its seed")
+    chk.sample({"codemod": scenarios[0]["_codemod"], "documented_delta_of_first_file": list(scenarios[0]["steps"][0]["bag_expect"].values())[:1]})
+    chk.assumptions += [
+        "the documented edit of a codemod on a seed is the one the repository's own test expects for that seed",
+        "variants whose base seed is not rewritten the documented way would be flagged as well (the vendored expectation is the reference)",
+        "programs outside seeds x generic variations are not covered",
+    ]
+
+
+def replay(data: dict) -> int:
+    print(json.dumps(data, indent=1)[:4000])
+    return 0
